@@ -255,6 +255,10 @@ Definition replace_prelude (s : state) (m v : nat) : state * option err :=
   match getn s m, getn s v with
   | Some mn, Some vn =>
     if is_ali (nkind mn) then (s, None)
+    else if Nat.eqb m v then
+      (* re-assigning the object that already is the member under that key: the loop then iterates over the very
+         dictionary it writes to (RuntimeError when a stale key makes it grow); cut *)
+      (s, Some EScope)
     else if is_mod (nkind mn) && is_ali (nkind vn) then
       (* value.is_module on an alias: final_target -> value.path / value.target *)
       (s, Some (match nparent vn with None => EMissing | Some _ => EScope end))
